@@ -6,6 +6,8 @@
 #include <optional>
 #include <map>
 #include <functional>
+#include <variant>
+#include <vector>
 
 // ---- counting allocator (the macros are honoured by nmtools/utl/vector.hpp) ----
 namespace nmv_alloc {
@@ -234,6 +236,7 @@ static void hist(const J& A, W& w) {
     else if (t == "static_vector4") run_seq<utl::static_vector<int, 4>, int>(A, w);
     else if (t == "static_vector8") run_seq<utl::static_vector<double, 8>, double>(A, w);
     else if (t == "small_vector6") run_seq<nm::small_vector<int, 6>, int>(A, w);
+    else if (t == "small_vector6_stl") run_seq<nm::small_vector<int, 6, std::variant, utl::static_vector, std::vector>, int>(A, w);
     else if (t == "array4") run_array<int, 4>(A, w);
     else if (t == "array3d") run_array<double, 3>(A, w);
     else if (t == "maybe_int") run_maybe<int>(A, w);
